@@ -19,10 +19,11 @@ SIG_STARTS = "actor-spotlight-not-run-exactly-once"
 # A line printed immediately before the spotlight process exits during the
 # shutdown can be lost (cmd.Wait closes the pipe while the drain goroutine is
 # still reading): seen on the unchanged tree under load only, i.e. not
-# deterministically.  The scenario that can show it (handlers that exit right
-# after their last line) is switched on once KNOWN_FINDINGS.json names this
-# signature (known: reported as KNOWN-FINDING when it shows; fixed: a
-# violation again); the handlers that linger 0.3 s are always there.
+# deterministically.  The scenario that shows it (handlers that exit right
+# after their last line, 16 plays at a time under a bounded CPU load, run as
+# the very last stage) is switched on once KNOWN_FINDINGS.json names this
+# signature (it does: fixed by b1ce9d7); in the other plays the handlers
+# linger 0.3 s.
 SIG_LASTLINE = "line-printed-just-before-spotlight-exit-lost"
 BITS = [(1, "changed-sample-recorded-twice"), (2, "row-count-differs-from-matching-lines"),
         (4, "wrong-value-recorded"), (8, "wrong-time-recorded"), (16, "a-line-stopped-the-play")]
@@ -121,10 +122,50 @@ def lastline_scenario_enabled():
                for e in vlib.load_known().get("findings", []))
 
 
-def run_e2e(res, bins, seed, nplays):
+class CpuLoad:
+    """A bounded CPU load: n busy-loop child processes, gone after max_s
+    seconds at the latest and in any case when the block is left."""
+
+    def __init__(self, n, max_s):
+        self.n, self.max_s, self.procs, self.timer = n, max_s, [], None
+
+    def stop(self):
+        for p in self.procs:
+            try:
+                p.kill()
+            except OSError:
+                pass
+        for p in self.procs:
+            try:
+                p.wait(timeout=5)
+            except Exception:
+                pass
+        self.procs = []
+
+    def __enter__(self):
+        import threading
+        for _ in range(self.n):
+            self.procs.append(subprocess.Popen(["sh", "-c", "while :; do :; done"], stdin=subprocess.DEVNULL,
+                                               stdout=subprocess.DEVNULL, stderr=subprocess.DEVNULL))
+        self.timer = threading.Timer(self.max_s, self.stop)
+        self.timer.daemon = True
+        self.timer.start()
+        return self
+
+    def __exit__(self, *a):
+        if self.timer:
+            self.timer.cancel()
+        self.stop()
+        return False
+
+
+def run_e2e(res, bins, seed, nplays, immediate=False, workers=6, load_s=0):
+    """Generate nplays plays, run them through the real binary (workers at a
+    time; with load_s > 0 under a CPU load of 2 x nproc busy loops lasting at
+    most load_s seconds per batch of `workers` plays), evaluate."""
     d = tempfile.mkdtemp(prefix="shk-c08-e2e-")
     try:
-        extra = ["-e2e-immediate"] if lastline_scenario_enabled() else []
+        extra = ["-e2e-immediate", "-e2e-small"] if immediate else []
         rc, o = vlib.run([bins["c08"], "-seed", str(seed), "-e2e", d, "-e2e-n", str(nplays)] + extra, timeout=600)
         if rc != 0:
             res.violation(None, "harness crashed (e2e generation)", {"kind": "harness-crash", "output": o[-4000:]}, no_input=True)
@@ -145,8 +186,14 @@ def run_e2e(res, bins, seed, nplays):
                 json.dump({"WallS": time.time() - t0 + 0.5, "Exit": rc, "Tail": out[-1500:]}, f)
             return rc
 
-        with concurrent.futures.ThreadPoolExecutor(max_workers=6) as ex:
-            list(ex.map(one, names))
+        if load_s:
+            for i in range(0, len(names), workers):
+                with CpuLoad(2 * vlib.NCPU, load_s):
+                    with concurrent.futures.ThreadPoolExecutor(max_workers=workers) as ex:
+                        list(ex.map(one, names[i:i + workers]))
+        else:
+            with concurrent.futures.ThreadPoolExecutor(max_workers=workers) as ex:
+                list(ex.map(one, names))
         outd = os.path.join(d, "eval")
         rc, o = vlib.run([bins["c08"], "-e2echeck", d, "-out", outd], timeout=600)
         if rc != 0:
@@ -156,6 +203,30 @@ def run_e2e(res, bins, seed, nplays):
                 json.load(open(os.path.join(outd, "summary.json"))))
     finally:
         shutil.rmtree(d, ignore_errors=True)
+
+
+def lastline_scenario(res, bins, tier, seed):
+    """LAST stage (the CPU load must not disturb anything else): plays whose
+    SIGHUP handlers exit right after printing their last line, 16 at a time
+    under a bounded CPU load, so that a reader that loses the race against the
+    process exit shows.  Only the lost-last-line signature is reported from
+    here; the unloaded plays judge everything else."""
+    nplays, load_s = (16, 8) if tier == "quick" else (64, 12)
+    e = run_e2e(res, bins, seed + 1000, nplays, immediate=True, workers=16, load_s=load_s)
+    if e is None:
+        return
+    _, ecases, esummary = e
+    lost = [c for c in ecases if c.get("lost_last_lines")]
+    res.coverage["last_line_before_exit_plays"] = {
+        "plays": esummary["cases"], "stats": esummary["stats"], "plays_with_a_lost_last_line": len(lost),
+        "rule": "plays (2-4 actors) whose spotlight SIGHUP handlers print a last line yielding a point and exit at once, 16 plays at a time under 2 x nproc busy-loop processes (bounded, killed afterwards); the point must be in the CSV"}
+    if lost:
+        c = min(lost, key=lambda c: describe_e2e(c)["size"])
+        d = describe_e2e(c)
+        d.pop("size", None)
+        d.update({"kind": "failing-input", "lost_last_lines_of": c["lost_last_lines"], "n_failing_plays": len(lost),
+                  "n_plays": len(ecases), "cpu_load": "2 x nproc busy loops while the plays run"})
+        res.violation(SIG_LASTLINE, "the line a spotlight printed immediately before exiting at the end of the play yielded no data point (actors %s, %d of %d plays under CPU load); everything else is as expected" % (c["lost_last_lines"], len(lost), len(ecases)), d)
 
 
 def run(tier, seed):
@@ -217,13 +288,6 @@ def run(tier, seed):
                 d.pop("size", None)
                 d.update({"kind": "failing-input", "spotlight_starts": c["spotlight_starts"], "n_failing_plays": len(bad_starts)})
                 res.violation(SIG_STARTS, "an actor's spotlight command was not run exactly once (starts per actor: %s): its lines yield no point / several points" % c["spotlight_starts"], d)
-            lost = [c for c in ecases if c.get("lost_last_lines")]
-            if lost:
-                c = min(lost, key=lambda c: describe_e2e(c)["size"])
-                d = describe_e2e(c)
-                d.pop("size", None)
-                d.update({"kind": "failing-input", "lost_last_lines_of": c["lost_last_lines"], "n_failing_plays": len(lost)})
-                res.violation(SIG_LASTLINE, "the line a spotlight printed immediately before exiting at the end of the play yielded no data point (actors %s); everything else is as expected" % c["lost_last_lines"], d)
             eev = evaluate(res, ecases_v, tier + "e2e", 4, oracle_only=True)
             if eev is not None:
                 # rows doubled because a script ran twice are a row-count
@@ -237,6 +301,8 @@ def run(tier, seed):
                                                    "rule": "plays through the real binary with 2-4 actors (of one role and of different roles), each actor's spotlight script printing its own generated lines (stdout/stderr alternating, blanks around lines, blank lines, uneven pace) and one last line from its SIGHUP handler while the spotlight is being shut down at the end of the play; per (observer, actor, signal) file the rows must be that actor's good lines exactly once, and every script must have been started exactly once"}
                 if esummary["stats"].get("inconclusive-play-cut-short"):
                     res.notes.append("%d end-to-end plays ended before a spotlight had printed all its lines (sentinel row missing): not judged" % esummary["stats"]["inconclusive-play-cut-short"])
+    if not res.violations and lastline_scenario_enabled():
+        lastline_scenario(res, bins, tier, seed)
     return res.finish()
 
 
